@@ -637,6 +637,13 @@ impl<'a> GeneratorState<'a> {
             },
             ExprType::Absolute(variable, eight_bits, offset) => {
                 let v = self.compiler_state.get_variable(variable);
+                // A short, a pointer, or an element (constant subscript) of an array of them
+                let sixteen_bits = v.var_type == VariableType::Short
+                    || (!eight_bits
+                        && matches!(
+                            v.var_type,
+                            VariableType::CharPtr | VariableType::ShortPtr | VariableType::CharPtrPtr
+                        ));
                 let superchip;
                 let use_inc = match v.memory {
 #[cfg(feature = "atari2600")]
@@ -650,7 +657,7 @@ impl<'a> GeneratorState<'a> {
                     Ok(ExprType::Absolute(variable.clone(), *eight_bits, *offset))
                 } else {
                     // Implment optimization for inc on pointers
-                    if !superchip && (v.var_type == VariableType::Short || (v.var_type == VariableType::CharPtr && !eight_bits)) {
+                    if !superchip && sixteen_bits {
 // Implement optimized 16 bits increment:
 //        inc     ptr
 //        bne     :+
@@ -693,7 +700,7 @@ impl<'a> GeneratorState<'a> {
                         let right = ExprType::Immediate(1);
                         let newright = self.generate_arithm(expr_type, &op, &right, pos, false)?;
                         let ret = self.generate_assign(expr_type, &newright, pos, false);
-                        if v.var_type == VariableType::Short || (v.var_type == VariableType::CharPtr && !eight_bits) {
+                        if sixteen_bits {
                             let newright = self.generate_arithm(expr_type, &op, &right, pos, true)?;
                             self.generate_assign(expr_type, &newright, pos, true)?;
                         }
